@@ -93,6 +93,14 @@ impl Prop for C06 {
             let big = if suite == "ed448" { 120u16 } else { 300u16 };
             out.push(serde_json::to_value(Case::Big { suite: suite.to_string(), n: big, t: 2, seed: format!("s{seed}") }).unwrap());
             out.push(serde_json::to_value(Case::Big { suite: suite.to_string(), n: 60, t: 40, seed: format!("s{seed}") }).unwrap());
+            if suite != "ed448" || tier == Tier::Thorough {
+                // thresholds on both sides of the one-byte boundary
+                out.push(serde_json::to_value(Case::Big { suite: suite.to_string(), n: 257, t: 256, seed: format!("s{seed}") }).unwrap());
+                if suite == "ed25519" || tier == Tier::Thorough {
+                    out.push(serde_json::to_value(Case::Big { suite: suite.to_string(), n: 258, t: 255, seed: format!("s{seed}") }).unwrap());
+                    out.push(serde_json::to_value(Case::Big { suite: suite.to_string(), n: 258, t: 257, seed: format!("s{seed}") }).unwrap());
+                }
+            }
         }
         for suite in REAL_SUITES {
             out.push(serde_json::to_value(Case::IdBits { suite: suite.to_string(), seed: format!("s{seed}") }).unwrap());
@@ -469,6 +477,31 @@ fn run_big<C: Suite>(n: u16, t: u16, seed: &str) -> Outcome {
                     Err(e) => {
                         o.fail(format!("{tag}/honest-share-rejected"), format!("{ctx}: id {}: {e:?}", id_short::<C>(id)));
                         break;
+                    }
+                }
+            }
+            // what the dealer sends arrives over the wire: first and last share, the public key package
+            for (id, sh) in shares.iter().take(1).chain(shares.iter().rev().take(1)) {
+                let b = sh.serialize().ok().and_then(|b| SecretShare::<C>::deserialize(&b).ok());
+                let j = serde_json::to_string(sh).ok().and_then(|j| serde_json::from_str::<SecretShare<C>>(&j).ok());
+                for (how, d) in [("binary", b), ("JSON", j)] {
+                    match d.map(KeyPackage::<C>::try_from) {
+                        Some(Ok(kp)) => {
+                            if *kp.min_signers() != t || Some(kp.verifying_share()) != pkp.verifying_shares().get(id) || kp.signing_share() != sh.signing_share() {
+                                o.fail(format!("{tag}/share-changed-in-transport"), format!("{ctx}: id {} via {how}: threshold {} / share differs", id_short::<C>(id), kp.min_signers()));
+                            }
+                            o.count("transported_shares_accepted", 1);
+                        }
+                        _ => o.fail(format!("{tag}/honest-share-rejected"), format!("{ctx}: id {} after {how} transport", id_short::<C>(id))),
+                    }
+                }
+            }
+            {
+                let b = pkp.serialize().ok().and_then(|b| fc::keys::PublicKeyPackage::<C>::deserialize(&b).ok());
+                let j = serde_json::to_string(&pkp).ok().and_then(|j| serde_json::from_str::<fc::keys::PublicKeyPackage<C>>(&j).ok());
+                for (how, d) in [("binary", b), ("JSON", j)] {
+                    if d.as_ref() != Some(&pkp) || d.as_ref().map(|p| p.min_signers()) != Some(Some(t)) {
+                        o.fail(format!("{tag}/public-package-changed-in-transport"), format!("{ctx}: via {how}"));
                     }
                 }
             }
